@@ -2,6 +2,7 @@ SPECIFICATION Spec
 CONSTANTS
   CwdVariant = "nofinally"
   StatGuard = FALSE
+  CcStopsAtExisting = FALSE
   MaxDepth = 2
   Emit = FALSE
 INVARIANT InvRestored
